@@ -35,7 +35,7 @@ SUBS = [
 
 
 def jobs(tier):
-    return [{"generations": 2 if tier == "quick" else 3}]
+    return [{"generations": 2 if tier == "quick" else 3, "topic_error": True}]
 
 
 def scenario(job):
@@ -76,6 +76,13 @@ def scenario(job):
 
         def net():
             _pump(ctx, cl, clock, lambda n: "answer", [], hold=[])
+            # a transient topic-level error ("leader not available" right after the topic was created) clears once it has
+            # been reported to the client
+            if cl.topic_errors.get("other") and any(x.api == 3 and x.answered and b"other" in x.q["body"]["topics"] for x in cl.requests[err_from[0]:]):
+                ctx.log("topic-error-clears")
+                del cl.topic_errors["other"]
+
+        err_from = [0]
 
         def take(kind):
             for _ in range(12):
@@ -98,6 +105,11 @@ def scenario(job):
                 return
             subs = SUBS[ctx.choose("subscriptions", len(SUBS))]
             members = [_JoinGroupResponseMember(m, ref.enc_consumer_protocol_metadata(0, [t.encode() for t in ts], b"")) for m, ts in sorted(subs.items())]
+            if job.get("topic_error") and ctx.choose("other_topic_error", 2) == 1:
+                # the leader's partition lookup will find one of the topics in error while the others load fine
+                cl.topic_errors["other"] = 5
+                err_from[0] = len(cl.requests)
+                ctx.log("topic-error-set")
             ctx.log("join-answered", gen, sorted(subs.items()), sorted(parts.items()))
             j[2].callback(_JoinGroupResponse(0, gen, "consumer", "m-1", "m-1", members))
             s = take("sync")
